@@ -991,6 +991,36 @@ func c14(c *core.Ctx, r *core.Report) {
 								okg = uses > 0 && uses == guardedUses
 							}
 						}
+						if !okg {
+							// the value reaches this store through helpers (a positional constructor of the options): every
+							// source of it is the validated config field or a flag value tested `< 1 → error` where it is read
+							okg = true
+							nsrc := 0
+							for _, l := range sourcesOf(c, e, fn) {
+								nsrc++
+								if fld, owner := an.TerminalField(l.V); fld != nil && fld.Name() == "Concurrency" && an.IsNamed(owner, apiPkg, "Options") {
+									continue
+								}
+								rejected := false
+								if l.Fn != nil {
+									for _, t := range rejectingTests(an.Outermost(l.Fn), 2) {
+										k, isK := an.Strip(t.Y.V).(*ssa.Const)
+										if !isK || k.Value == nil || stripAllocs(an.Strip(t.X.V)) != stripAllocs(an.Strip(l.V)) {
+											continue
+										}
+										if (t.Op == token.LSS && k.Int64() >= 1) || (t.Op == token.LEQ && k.Int64() >= 0) {
+											rejected = true
+										}
+									}
+								}
+								if !rejected {
+									okg = false
+								}
+							}
+							if nsrc == 0 {
+								okg = false
+							}
+						}
 						r.Check(okg, key+"#flag", an.Pos(c, in), "flag path: "+ed+" guarded by `< 1 → error`", "the --concurrency flag value ("+ed+") reaches RunOptions.Concurrency without a `< 1` rejection")
 					}
 				}
